@@ -97,56 +97,51 @@ let handle (toks : string list) (impl : string list) : string * string =
       (m, v)
     end
   | "build" ->
-    let cpb = num c in let mvs = num c in let mts = num c in let _pure = next c in
+    let cpb = num c in let mvs = num c in let mts = num c in let pure = (next c = "1") in
     let cfg = { c_cpb = cpb; c_max_value_size = mvs; c_max_tx_size = mts } in
     if next c <> "I" then failwith "I";
     let nin = int_ c in
-    let _ins = rep nin (fun () -> let coin = num c in let ma = p_ma c in (coin, ma)) in
+    let ins = rep nin (fun () -> let coin = num c in let ma = p_ma c in (coin, ma)) in
     if next c <> "O" then failwith "O";
     let nout = int_ c in
     let req = rep nout (fun () -> p_out c) in
     if next c <> "C" then failwith "C";
     let caddr = p_addr c in let cd = p_dat c in
-    let rq pure = { r_addr = caddr; r_datum = cd; r_sref = None; r_prefer_pure = pure } in
-    (match impl with
-     | [] -> ((match add_outputs cfg [] req with Ok _ -> "admitted" | _ -> "err:addout"), "na")
-     | ["err:addout"] -> ((match add_outputs cfg [] req with Ok _ -> "admitted" | _ -> "err:addout"), "holds")
-     | ["err:change"] | ["err:build"] | ["panic"] ->
-       (* no transaction was produced: nothing to judge, no oracle to run the change model with *)
-       ((match add_outputs cfg [] req with Ok _ -> "skip " ^ List.hd impl | _ -> "err:addout"), "holds")
-     | ["toobig"; full] ->
-       ((match build_guard cfg (nn full) with Err -> "toobig " ^ full | _ -> "fits " ^ full), "holds")
-     | "ok" :: l0 :: fee :: full :: nreq :: nouts :: rest ->
-       let l0 = nn l0 and fee = nn fee and fulln = nn full in
-       let nreq = int_of_string nreq and nouts = int_of_string nouts in
-       let (flat, tail) = split_at_bar [] rest in
-       let rec obs3 = function
-         | c' :: s :: v :: r -> { ob_coin = nn c'; ob_size = nn s; ob_vsize = nn v } :: obs3 r
-         | _ -> [] in
-       let observed = obs3 flat in
-       let tc = { a = Array.of_list tail; i = 0 } in
-       let bundles = rep (nouts - nreq) (fun () -> p_ma tc) in
-       let asset_branch = List.exists ma_nonempty bundles in
-       let pure_made = asset_branch && (match List.rev bundles with b :: _ -> not (ma_nonempty b) | [] -> false) in
-       let packs = if pure_made then List.rev (List.tl (List.rev bundles)) else bundles in
-       let model_outs =
-         if asset_branch then model_build_assets cfg (rq false) req l0 fee packs pure_made
-         else model_build_ada cfg (rq false) req l0 fee (nouts > nreq) in
-       let topup = if asset_branch && not pure_made then model_last_admitted cfg (rq false) req l0 fee packs else None in
-       let m = (match model_outs with
-           | Ok outs ->
-             (match build_guard cfg fulln with
-              | Ok _ ->
-                let b = Buffer.create 256 in
-                Buffer.add_string b (Printf.sprintf "ok %s %s %s %d %d" (sn l0) (sn fee) full nreq (List.length outs));
-                List.iter (fun o -> Buffer.add_string b (Printf.sprintf " %s %s %s" (sn o.o_coin) (sn (out_size o)) (sn (out_value_size o)))) outs;
-                Buffer.add_string b " |";
-                List.iter (fun t -> Buffer.add_string b (" " ^ t)) tail;
-                Buffer.contents b
-              | _ -> "toobig " ^ full)
-           | Err -> "err:change" | Panic -> "panic" | OutOfFuel -> "outoffuel") in
-       (m, show_verdict (judge_build cfg observed fulln topup))
-     | _ -> ("driver-unparsed", "fails:-"))
+    (* the whole scenario on C05's builder model with the concrete MinAda / TxSize oracle: nothing is read off the implementation *)
+    let res = run_build_case cpb mvs mts pure (List.map (fun (coin, ma) -> (coin, ma)) ins) req caddr cd in
+    let show_ma (ma : multiasset) =
+      let b = Buffer.create 64 in
+      Buffer.add_string b (string_of_int (List.length ma));
+      List.iter (fun p -> Buffer.add_string b (" " ^ string_of_int (List.length p));
+                  List.iter (fun (nl, q) -> Buffer.add_string b (" " ^ sn nl ^ " " ^ sn q)) p) ma;
+      Buffer.contents b in
+    let sum l = List.fold_left BZ.add BZ.zero l in
+    let l0 = (let i = sum (List.map (fun (c', _) -> bz_of_n c') ins) and o = sum (List.map (fun o -> bz_of_n o.o_coin) req) in
+              if BZ.compare i o >= 0 then BZ.sub i o else BZ.zero) in
+    let nreq = List.length req in
+    let m = (match res with
+        | RAddOut -> "err:addout"
+        | RChangeErr -> "err:change"
+        | RChangePanic -> "panic"
+        | RChangeFuel -> "outoffuel"
+        | RBuild full -> if BZ.compare (bz_of_n full) (bz_of_n mts) > 0 then "toobig " ^ sn full else "err:build"
+        | ROk (fee, full, outs) ->
+          let b = Buffer.create 256 in
+          Buffer.add_string b (Printf.sprintf "ok %s %s %s %d %d" (BZ.to_string l0) (sn fee) (sn full) nreq (List.length outs));
+          List.iter (fun o -> Buffer.add_string b (Printf.sprintf " %s %s %s" (sn o.o_coin) (sn (out_size o)) (sn (out_value_size o)))) outs;
+          Buffer.add_string b " |";
+          List.iter (fun o -> Buffer.add_string b (" " ^ show_ma o.o_ma)) (drop nreq outs);
+          Buffer.contents b) in
+    let v = (match impl with
+        | [] -> "na"
+        | "ok" :: _ :: _ :: full :: _ :: _ :: rest ->
+          let (flat, _) = split_at_bar [] rest in
+          let rec obs3 = function
+            | c' :: s :: v :: r -> { ob_coin = nn c'; ob_size = nn s; ob_vsize = nn v } :: obs3 r
+            | _ -> [] in
+          show_verdict (judge_build cfg (obs3 flat) (nn full) None)
+        | _ -> "holds") in                     (* no transaction was released: nothing to judge *)
+    (m, v)
   | "txsize" ->
     let mts = num c in
     let cfg = { c_cpb = nn "4310"; c_max_value_size = nn "5000"; c_max_tx_size = mts } in
@@ -156,17 +151,21 @@ let handle (toks : string list) (impl : string list) : string * string =
     if next c <> "O" then failwith "O";
     let nout = int_ c in
     let req = rep nout (fun () -> p_out c) in
+    if next c <> "F" then failwith "F";
+    let fee = num c in
+    let shape v = { t_inputs = List.init nin (fun i -> n_of_int i); t_outputs = req; t_fee = fee; t_vkeys = n_of_int v; t_boots = [] } in
+    let mfull = full_tx_size (shape 1) and mlen = full_tx_size (shape 0) in   (* with the mock witness / as build_tx_unsafe returns it *)
     let admitted = (match add_outputs cfg [] req with Ok _ -> true | _ -> false) in
     (match impl with
      | [] -> ((if admitted then "admitted" else "err:addout"), "na")
      | ["err:addout"] -> ((if admitted then "admitted" else "err:addout"), "holds")
      | ["err:size"] -> ("skip err:size", "holds")
      | ["ok"; full; txlen] ->
-       let m = if not admitted then "err:addout" else (match build_guard cfg (nn full) with Ok _ -> "ok " ^ full ^ " " ^ txlen | _ -> "toobig " ^ full) in
+       let m = if not admitted then "err:addout" else (match build_guard cfg mfull with Ok _ -> "ok " ^ sn mfull ^ " " ^ sn mlen | _ -> "toobig " ^ sn mfull) in
        let big = if BZ.compare (BZ.of_string full) (BZ.of_string txlen) >= 0 then full else txlen in
        (m, show_verdict (judge_build cfg [] (nn big) None))
      | ["toobig"; full] ->
-       let m = if not admitted then "err:addout" else (match build_guard cfg (nn full) with Ok _ -> "ok " ^ full | _ -> "toobig " ^ full) in
+       let m = if not admitted then "err:addout" else (match build_guard cfg mfull with Ok _ -> "ok " ^ sn mfull ^ " " ^ sn mlen | _ -> "toobig " ^ sn mfull) in
        (m, "holds")
      | _ -> ("driver-unparsed", "fails:-"))
   | k -> failwith ("unknown case kind " ^ k)
